@@ -22,6 +22,8 @@ MOLECULES = {
 }
 
 
+# four-site water: the fourth site is a massless dummy (element X) - centre of MASS and centre of geometry differ
+MOLECULES["H2O_dummy"] = [("O", 0.0, 0.0, 0.0), ("H", 0.0, 0.7570, 0.5860), ("H", 0.0, -0.7570, 0.5860), ("X", 0.0, 0.0, 0.1500)]
 MOLECULES["CHFClBr_mirror"] = [(el, -x, y, z) for el, x, y, z in MOLECULES["CHFClBr"]]      # the other enantiomer
 
 
